@@ -229,6 +229,24 @@ impl ShardSplitter {
             old_shard, progress.fence_token, next
         );
 
+        // The split was interrupted after its first progress record but before the
+        // split state reached the metadata store: redo the preparation step
+        // (idempotent) so that the later phases find the state they expect.
+        let next = if next == SplitPhase::Preparation {
+            self.metadata
+                .start_split(
+                    old_shard,
+                    progress.new_shards.clone(),
+                    progress.split_point.clone(),
+                )
+                .await?;
+            progress.completed_phase = Some(SplitPhase::Preparation);
+            self.persist_progress(&progress).await?;
+            SplitPhase::DualWrite
+        } else {
+            next
+        };
+
         self.run_from_phase(&mut progress, next).await?;
         Ok(true)
     }
